@@ -37,6 +37,7 @@ WHY = {
  "C09-h1": "value-level: a term (x mod 8) dropped from the bit cursor of writeRLEs when a bounded request starts inside a sub-block",
  "C08-h3": "value-level: the index-versus-voxels check of the supervoxel split compares sums instead of the kept and split sizes one by one",
  "C15-h2": "value-level: a hand-written LZ4 literal run for tiny payloads omits the length-extension byte at exactly 15 bytes; a rule 'compressed bytes come from the library' would also reject a correct fast path",
+ "C17-i4": "value-level: the payload offset of SendSerializedBlock computed from the checksum enum's value (1 + int(checksum)) instead of 1 or 5",
  "C20-d4": "value-level: ascending instead of descending order of swap-with-last deletions",
 }
 by = collections.defaultdict(list)
